@@ -103,6 +103,14 @@ claim(
 )
 
 claim(
+    "C13",
+    "Static: decides, as identities of the expressions extracted from the source for arbitrary input meshes, that every transformation except Stretch returns its input mesh when its design variable has the default value (taper 1, chord 1, sweep / dihedral / shears / twist 0) under every option valuation, that GeometryMesh chains the nine transformations in the documented order with identity defaults and a default span consistent with Stretch, that sweep and dihedral displace x and z by tan(angle) times the distance from the root with the documented sign on both halves, that the taper weight is 1 at the tip(s) and 0 at the root with a linear blend, and that reference-axis and design-variable defaults are taken by key presence. Does not decide Stretch's identity, area / chord-length invariants or B-spline behaviour.",
+    TB,
+    "source-level expression extraction (sympy) with substitution of the default parameter values, uninterpreted concatenation / contraction, group model of GeometryMesh under fixed key-presence policies",
+    "DESIGN.md section 2 C13",
+)
+
+claim(
     "C15",
     "Static: decides, as identities of the per-element expressions extracted from the source, that the KS aggregate is the max-shifted log-sum-exp of stress/yield - 1 on every path (which implies max <= KS <= max + ln N / rho and overflow safety), that the exact failure is stress/yield - 1, that every stored von Mises stress is positively homogeneous of degree one in the element's local displacements with strength factors dividing the whole combined stress, and that rigid translations and small rigid rotations of an element give zero stress. Does not decide agreement with closed-form section stresses (the local-axis construction is opaque).",
     TB,
